@@ -14,7 +14,7 @@ from .ty import *      # noqa
 from .values import *  # noqa
 
 DROPPED_ROOTS = {"logger"}
-DROPPED_FUNCS = {"log_list", "log_section", "print"}
+DROPPED_FUNCS = {"log_list", "log_section", "print", "configure_logger", "log_report"}
 
 
 class SuperProxy:
@@ -29,7 +29,17 @@ def _root_name(n):
 
 
 def check_unbound_names(E, node, st):
+    comp_bound = set()
     for n in ast.walk(node):
+        if isinstance(n, ast.comprehension):
+            for t in ast.walk(n.target):
+                if isinstance(t, ast.Name):
+                    comp_bound.add(t.id)
+        elif isinstance(n, ast.Lambda):
+            comp_bound.update(a.arg for a in n.args.args)
+    for n in ast.walk(node):
+        if isinstance(n, ast.Name) and n.id in comp_bound:
+            continue
         if isinstance(n, ast.Name) and isinstance(n.ctx, ast.Load):
             locs = st.env.get("__locals__")
             if locs is not None and n.id in locs.obj and n.id not in st.env and not any(n.id in f for f in st.bound):
@@ -64,6 +74,23 @@ def ev_call(E, node, st):
             o.pc = st.pc
             v = E.ev1p(node.args[0], o)
             yield st, v
+            return
+        if f.id == "raised_by" and st.spec:
+            # raised_by("Exc", callee(args)): the (uninterpreted) condition under which a PURE assumed callee raises Exc
+            name = node.args[0].value
+            call = node.args[1]
+            cal = E.ev1p(call.func, st)
+            args = [E.ev1p(a, st) for a in call.args]
+            kw = {k.arg: E.ev1p(k.value, st) for k in call.keywords}
+            qn = locate.qualname_of(cal.obj) if isinstance(cal, PyObj) else (f"opaque.{cal.name}" if isinstance(cal, BoundM) else None)
+            c = E.reg.contracts.get(qn)
+            if c is None or not c.pure:
+                raise OutsideSubset(f"raised_by on {qn}: not a pure assumed contract")
+            if isinstance(cal, BoundM):
+                args = [cal.recv] + args
+            fn0 = cal.obj if isinstance(cal, PyObj) and inspect.isfunction(locate.unwrap(cal.obj)[0]) else None
+            frame = _typed_args(E, c, bind_params(E, locate.unwrap(fn0)[0] if fn0 else None, c, args, kw, st, qn), st)
+            yield st, SVal(_uf_of_args(E, f"raises_{name}_{_m(qn)}", frame, z3.BoolSort(), st), BOOL)
             return
         if f.id == "super" and not node.args:
             me = st.env.get("self") or st.env.get("cls")
@@ -133,7 +160,7 @@ def dispatch(E, fv, args, kw, st, node):
         qn = locate.qualname_of(o)
         if isinstance(o, type) or inspect.isbuiltin(o) or (qn or "").startswith("builtins."):
             name = getattr(o, "__name__", None)
-            if getattr(o, "__module__", None) == "builtins" and name in B.BUILTINS:
+            if name in B.BUILTINS and getattr(_bi, name, None) is o:
                 yield from B.BUILTINS[name](E, args, kw, st, node)
                 return
         if qn in B.LIBFUNCS:
@@ -158,6 +185,8 @@ def dispatch(E, fv, args, kw, st, node):
         if qn and qn in E.reg.contracts:
             c = E.reg.contracts[qn]
             fn, kind, dropped = locate.unwrap(o)
+            if inspect.ismethod(o) and isinstance(o.__self__, type):
+                args = [PyObj(o.__self__)] + list(args)
             if (c.inline or (_pure_ctx(st) and not c.functional)) and not c.trusted and inspect.isfunction(fn):
                 yield from call_repo(E, fn, qn, args, kw, st, dropped, node)
             else:
@@ -361,6 +390,11 @@ def bind_params(E, fn, c, args, kw, st, qualname):
         except (TypeError, ValueError):
             names = None
     if names is None:
+        if c is not None and c.params is None:
+            # assumed external without a declared signature: every argument is accepted
+            out = {f"arg{i}": a for i, a in enumerate(args)}
+            out.update(kw)
+            return out
         names = list(c.params or {}) if c is not None else []
     out = {}
     if any(isinstance(a, tuple) and a and a[0] == "*" for a in args):
@@ -501,15 +535,33 @@ def apply_contract_pure(E, c, fn, args, kw, st, node):
         hkey = tuple(sorted((k, a.get_id()) for k, a in st.heap.items() if not _is_base(a))) \
             + tuple(sorted((g, v.t.get_id()) for g, v in st.ghost.items()))
     key = (qn, hkey if not c.pure else ())
+    if c.pure:
+        # the same uninterpreted function as in impure contexts (see _uf_of_args)
+        res = SVal(_uf_of_args(E, "fn_" + _m(qn), frame, E.U.sort(rty), st), rty)
+        E.pure_done = getattr(E, "pure_done", set())
+        if c.ensures and qn not in E.pure_done:
+            E.pure_done.add(qn)
+            names0 = [n for n, v in frame.items() if isinstance(v, SVal) and v.t is not None]
+            consts = [z3.Const(E.fresh_name("a_" + n), frame[n].t.sort()) for n in names0]
+            fr = dict(frame)
+            for n, cst in zip(names0, consts):
+                fr[n] = SVal(cst, frame[n].ty)
+            fr2 = dict(fr)
+            app = _uf_of_args(E, "fn_" + _m(qn), fr, E.U.sort(rty), st)
+            fr2["result"] = SVal(app, rty)
+            pre = [eval_spec(E, r, st, fr) for r in c.requires]
+            post = [eval_spec(E, e, st, fr2, old=st) for _, e in c.ensures]
+            ax = z3.ForAll(consts, z3.Implies(z3.And(pre) if pre else z3.BoolVal(True), z3.And(post)), patterns=[app]) if consts else z3.And(post)
+            E.axioms.append(ax)
+        if c.trusted:
+            E.assumptions.add(f"assumed contract (trusted): {qn}" + (f" - {c.note}" if c.note else ""))
+        return res
     names = [n for n, v in frame.items() if isinstance(v, SVal) and v.t is not None]
     E.pure_cache = getattr(E, "pure_cache", {})
     if key not in E.pure_cache:
         sorts = [frame[n].t.sort() for n in names]
-        if c.pure:
-            f = E.uf("fn_" + _m(qn), sorts, E.U.sort(rty))
-        else:
-            f = z3.Function(E.fresh_name("pure_" + _m(qn.split(".")[-1])), *sorts, E.U.sort(rty))
-            E.wf_function(f, sorts)
+        f = z3.Function(E.fresh_name("pure_" + _m(qn.split(".")[-1])), *sorts, E.U.sort(rty))
+        E.wf_function(f, sorts)
         E.pure_cache[key] = f
         consts = [z3.Const(E.fresh_name("a_" + n), srt) for n, srt in zip(names, sorts)]
         fr = dict(frame)
@@ -576,7 +628,13 @@ def apply_contract(E, c, fn, args, kw, st, node, recv_lv=None):
         for m in c.modifies:
             havoc_lv(E, s, m, dict(frame), "exc_" + _m(qn.split(".")[-1]))
         s.note(f"{qn} raises {name}")
-        E.raise_exc(s, E.new_exc(cls, s, exact=(mode != "sub")))
+        exc_v = E.new_exc(cls, s, exact=(mode != "sub"))
+        if len(ex) > 3:
+            fr3 = dict(frame)
+            fr3["exc"] = exc_v
+            for post in ex[3]:
+                s.assume(eval_spec(E, post, s, fr3, old=pre))
+        E.raise_exc(s, exc_v)
         if mode == "iff" or c.pure:
             st.assume(z3.Not(cb))
     # normal exit
